@@ -48,6 +48,7 @@ def dispatch (op : String) (args : List String) (obs : String) : String × Strin
   | "wm" => c06wm args obs
   | "up" => c09up args obs
   | "hup" => c09hup args obs
+  | "hupw" => c09hupw args obs
   | "dl" => c10dl args obs
   | "dial" => c10dial args obs
   | "dialtls" => c10dialtls args obs
